@@ -6,6 +6,7 @@ from ..analysis import (backslice, comparisons, branch_of, dominated_region, agg
                         forward_locals, upvar_operand, switch_on_result_of)
 from ..callgraph import CallGraph
 from ..facts import op_local, op_const, place_fields
+from .common import stdin_paths_body
 
 DOC = {
     'explanation': 'Schedules are out of static reach. Decided necessary conditions: the result of group_files passes a stable total ordering of groups and the per-group path '
@@ -387,7 +388,9 @@ def r7(ctx):
     rule = 'C13.R7'
     lib = ctx.lib
     v = ctx.need_body(rule, 'config::GroupConfig::validate')
-    ip = ctx.need_body(rule, 'config::GroupConfig::input_paths')
+    ip = stdin_paths_body(lib)
+    if ip is None:
+        ctx.missing(rule, 'config::GroupConfig::input_paths')
     if v is None or ip is None:
         return
     fields = set()
@@ -407,7 +410,7 @@ def r7(ctx):
     rp_stdin = False
     if rp is not None:
         rp_bodies = [rp] + [lib.body(x) for x in lib.closures_of(rp.path)]
-        rp_stdin = any(x.calls(r'GroupConfig::input_paths$|^std::io::stdin$') for x in rp_bodies)
+        rp_stdin = any(x.calls(r'GroupConfig::input_paths\w*$|^std::io::stdin$') for x in rp_bodies)
     knows_stdin = 'stdin' in fields
     ok = uses_paths and not rp_stdin and knows_stdin
     ctx.check(ok, rule, v.path + '|isolate-with-stdin', v.where(), 'validate and root_paths both take the isolate roots from the arguments; the stdin list is read once, by the scan; roots on stdin are refused explicitly',
